@@ -49,6 +49,16 @@ CLAIMS = {
    ref="§4 C10",
    note="Trusts path/filepath.Match and ast.NewCommentMap; 'same predicate' is decided as 'filepath.Match on lower-cased operands' at both sites.",
    technique="guard-edge (must-pass-through-edge) analysis and value-origin checks on SSA"),
+ "C07": dict(
+   text="Decides one necessary clause of U1000's deletion safety for all programs at once: every child of every syntax node kind handled by the use-graph walkers that can hold an identifier is visited (91 walker × node-type × field pairs derived from go/ast's struct definitions), and unknown kinds panic instead of being skipped. This rule found the embedded-generic-type-argument defect. It does not decide the usage rules themselves, nor that every zero-reference object is reported.",
+   ref="§4 C07",
+   note="'Visited' is decided as 'the field is mentioned in the clause or in the graph method the node is delegated to'; go/ast's field types are the oracle for where identifiers can occur. Two exemptions (labels) with reasons are in the checker.",
+   technique="type-checked AST child-coverage analysis of type-switch clauses"),
+ "C17": dict(
+   text="Decides structural necessary conditions of order independence and variant merging: map-loop bodies in package unused affect the graph only through monotone accumulators that never shrink; U1000 verdicts are emitted only after all results were merged, only under not-used-in-any-variant, 'used' is never overwritten and is recorded for every variant; used/unused keys are built from the same origins. Does not decide monotonicity of the usage rules under added references.",
+   ref="§4 C17",
+   note="Assumes reachability over an edge set is insertion-order independent; effect sets are closed over static callees within package unused.",
+   technique="field effect sets + map-loop body analysis + guard-edge rules on SSA"),
 }
 
 NOT_APPLICABLE = {
